@@ -12,9 +12,9 @@ def run(ctx, ps, gen_bad):
     if rc != 0:
         return [Failure('C14', 'tie', 'race-build', (o + e)[-500:])], {}
     if ctx.quick:
-        plan = [('data', 3, 8, 4), ('names', 3, 8, 4), ('xrename', 3, 8, 2), ('lsrace', 2, 600, 2)]
+        plan = [('data', 3, 8, 4), ('names', 3, 8, 4), ('xrename', 3, 8, 2), ('lsrace', 2, 600, 2), ('crashshrink', 1, 3, 2)]
     else:
-        plan = [('data', 4, 10, 120), ('names', 4, 10, 120), ('xrename', 4, 10, 80), ('lsrace', 2, 1500, 20)]
+        plan = [('data', 4, 10, 120), ('names', 4, 10, 120), ('xrename', 4, 10, 80), ('lsrace', 2, 1500, 20), ('crashshrink', 1, 4, 30)]
     fails, cov = concengine.run(ctx, 'C14', plan, binary='h_race', kinds={'race', 'tie'})
     cov['rule'] = 'one evaluation = one concurrent history run under the Go race detector (GORACE halt_on_error=0); any DATA RACE report is a violation'
     return fails, cov
